@@ -43,6 +43,7 @@ type Contract struct {
 	Mods    []*ModItem
 	Inv     map[int][]*Clause
 	Asserts map[string][]*Clause // keyed "call <callee>#k" -> clauses asserted before that call
+	FlagResult bool // the (single) result is a flag channel: never sent on, a receive completes only when it is closed
 	SiteSets map[string][]*GhostEffect // ghost assignments performed just before a call site ("set at call f#k: g := expr")
 	After   map[string][]*Clause // ghost updates / assumptions are not allowed; only asserts (checked) after call
 	Allocates []string
@@ -161,7 +162,7 @@ func (cs *ContractSet) parseContractFile(file, pkgPath string) error {
 	// join continuation lines: a line whose first token is not a keyword continues the previous one
 	keywords := map[string]bool{"func": true, "props": true, "requires": true, "ensures": true, "ensures-trusted": true, "modifies": true, "invariant": true,
 		"trusted": true, "arith": true, "inline": true, "pred": true, "ghost": true, "owner": true, "flagchan": true, "assert": true,
-		"allocates": true, "freezes": true, "invokes": true, "preserves": true, "maintains": true, "sort": true, "effect": true, "set": true, "monitor": true, "locks": true, "inmonitor": true, "pure": true, "blocking": true, "note": true, "lemma": true, "params": true, "spec": true, "axiom": true}
+		"allocates": true, "freezes": true, "invokes": true, "preserves": true, "maintains": true, "sort": true, "effect": true, "set": true, "flagresult": true, "monitor": true, "locks": true, "inmonitor": true, "pure": true, "blocking": true, "note": true, "lemma": true, "params": true, "spec": true, "axiom": true}
 	var joined []item
 	for _, it := range items {
 		f := strings.Fields(it.text)
@@ -468,6 +469,11 @@ func (cs *ContractSet) parseContractFile(file, pkgPath string) error {
 				return perr(err)
 			}
 			cur.Locks = append(cur.Locks, e)
+		case "flagresult":
+			if cur == nil {
+				return perr(fmt.Errorf("flagresult outside func"))
+			}
+			cur.FlagResult = true
 		case "set":
 			// set at call <callee>#k: g := expr   (ghost assignment just before that call; names as in site asserts)
 			if cur == nil || !strings.HasPrefix(rest, "at ") {
